@@ -384,7 +384,15 @@ def rule_ratio_sign_is_the_sign_of_the_actual_reduction(eng, rep, rule="C04-5b.a
                 for m, e in cfg.succ(cn):
                     if e.get("label") != outcome:
                         continue
-                    pth = cfg.path_avoiding(m, rn, exit_stores) if m not in exit_stores else None
+                    def _feasible(a2, m2, e2, den=den):
+                        # a second test of the same sign on the way (`if den < 0 and A: .. elif den < 0: ..`) cannot answer differently: the denominator is not
+                        # re-assigned in between (checked below), so its "not negative" edge is infeasible on a path that started from "negative"
+                        if cfg.kind(a2) == "cond" and e2.get("label") in (True, False):
+                            at2 = atom_of(cfg.ast_of(a2), e2["label"])
+                            if at2.op == "le" and const_value(at2.lhs) == 0 and ekey(at2.rhs) == den.id:      # 0 <= den
+                                return False
+                        return True
+                    pth = cfg.path_avoiding(m, rn, exit_stores, edge_ok=_feasible) if m not in exit_stores else None
                     if m == rn:
                         pth = [m]
                     if pth is not None:
@@ -457,6 +465,16 @@ def rule_furthest_point_loops_stop_before_the_incumbent(eng, rep, rule="C04-7.lo
         for node in eng.prog.own_nodes(fi):
             if isinstance(node, ast.Assign) and len(node.targets) == 1 and isinstance(node.targets[0], ast.Name):
                 src, sl = is_desc_argsort(node.value)
+                if src is None and isinstance(node.value, ast.Call) and eng.res.calls.get(id(node.value)) is not None:
+                    # a helper every return of which is the descending argsort of the distances to the incumbent
+                    tg = [t for t in eng.res.calls[id(node.value)].targets if isinstance(getattr(t, "node", None), ast.FunctionDef)]
+                    if len(tg) == 1:
+                        hcfg = eng.cfg(tg[0])
+                        rets = [r for r in eng.prog.own_nodes(tg[0]) if isinstance(r, ast.Return) and r.value is not None]
+                        from .common import expand_locals
+                        hs = [is_desc_argsort(r.value) for r in rets]
+                        if rets and all(h[0] is not None and "distances_to_xopt" in ekey(expand_locals(hcfg, r, h[0])) for h, r in zip(hs, rets)):
+                            src, sl = ast.parse("self.model.distances_to_xopt()", mode="eval").body, hs[0][1]
                 if src is not None:
                     lists[node.targets[0].id] = (node, src, sl)
         if not lists:
